@@ -64,6 +64,26 @@ theorem linear_affine (s o t x y : Rat) :
     linF s o (t * x + (1 - t) * y) = t * linF s o x + (1 - t) * linF s o y := by
   unfold linF; ring
 
+/-- the shortcut's guard, explicitly: `np.isclose(s, 1)` ⇔ `|s − 1| ≤ 1e-8 + 1e-5` (the tie checks the two
+floats adjacent to either boundary against `np.isclose`) -/
+theorem scaling_guard (s : Rat) : closeToOne s = true ↔ |s - 1| ≤ 1001 / 100000000 := by
+  have habs : absR (s - 1) = |s - 1| := by
+    unfold absR; split
+    · rename_i h; exact (abs_of_neg h).symm
+    · rename_i h; exact (abs_of_nonneg (not_lt.mp h)).symm
+  simp [closeToOne, habs]
+
+/-- inside the band (boundary included) the signal is returned unchanged … -/
+theorem scaling_inside (s x : Rat) (h : |s - 1| ≤ 1001 / 100000000) : scaleF s x = x := by
+  have := (scaling_guard s).mpr h
+  simp [scaleF, this]
+
+/-- … strictly outside it is multiplied by the scaling -/
+theorem scaling_outside (s x : Rat) (h : 1001 / 100000000 < |s - 1|) : scaleF s x = s * x := by
+  have : closeToOne s = false := by
+    rw [Bool.eq_false_iff]; intro hc; exact absurd ((scaling_guard s).mp hc) (not_le.mpr h)
+  simp [scaleF, this]
+
 /-! ### combined model -/
 
 /-- `combined_eq_compose`: a combined model is the sequential composition of its parts -/
@@ -140,6 +160,44 @@ theorem threshold_strict (lo : Rat) (hi : Option Rat) (mask : Option Bool) (p : 
 theorem threshold_hetero (lo : List Rat) (hi : Option (List Rat)) (mask : Option Bool) (p : Pixel) :
     thrHet lo hi mask p = thrHom (listGetD lo p.label 0) (hi.map fun h => listGetD h p.label 0) mask p := rfl
 
+/-! ### the generic wrapper `HeterogeneousModel` and label maps of another shape -/
+
+/-- `HeterogeneousModel(obj, labels)`: on the region of label index `ℓ` the wrapper is the model stored for
+`ℓ`; with linear sub-models it is the label-wise linear model -/
+theorem wrapper_eq_model_on_label (ms : List M) (p : Pixel) (m : M) (h : ms[p.label]? = some m) :
+    wrapApplyPix ms p = m.applyPix p := by simp [wrapApplyPix, h]
+
+theorem wrapper_linear_eq_hetero (L : Nat) (s o : List Rat) (p : Pixel) (hs : p.label < s.length)
+    (ho : p.label < o.length) : wrapApplyPix (List.zipWith M.linear s o) p = (M.het L s o).applyPix p :=
+  wrap_linear_eq_het L s o p hs ho
+
+/-- **nearest-neighbour contract** of `cv2.resize(labels, (W, H), INTER_NEAREST)`: the result has shape
+`H × W`, creates no new label (every entry is an entry of the source), each axis is sampled monotonically at
+`⌊x·n/N⌋`, and a map of the signal's shape is used as it is. -/
+theorem resize_nearest_contract (src : List (List Nat)) (w H W : Nat) (hh : 0 < src.length) (hw : 0 < w)
+    (hrect : ∀ row ∈ src, row.length = w) :
+    (resizeNearest src H W).length = H ∧ (∀ row ∈ resizeNearest src H W, row.length = W) ∧
+    (∀ row ∈ resizeNearest src H W, ∀ v ∈ row, ∃ srow ∈ src, v ∈ srow) ∧
+    (∀ n N x y, x ≤ y → nearIdx n N x ≤ nearIdx n N y) ∧ (∀ n x, x < n → nearIdx n n x = x) ∧
+    labelsFor src src.length (listGetD src 0 []).length = src :=
+  ⟨(resizeNearest_shape src H W).1, (resizeNearest_shape src H W).2, resizeNearest_subset src w H W hh hw hrect,
+    fun n N _ _ h => nearIdx_mono n N h, fun _ _ h => nearIdx_id h, by simp [labelsFor]⟩
+
+/-- **the label map in force never depends on the call history**: after any sequence of calls with signals of
+positive shapes on one `HeterogeneousLinearModel`, the map used for a signal of shape `H × W` is
+`labelsFor labels H W` — the original labels if the shapes agree, else the nearest-neighbour resize of the
+ORIGINAL labels (never of a previously resized copy). -/
+theorem label_cache_history_free (labels : List (List Nat)) (w : Nat) (hrect : ∀ row ∈ labels, row.length = w)
+    (hw : (listGetD labels 0 []).length = w) (shapes : List (Nat × Nat)) (H W : Nat)
+    (hpos : ∀ s ∈ shapes, 0 < s.1) (hH : 0 < H) :
+    cacheRun labels (shapes ++ [(H, W)]) = labelsFor labels H W :=
+  cacheRun_last labels w hrect hw shapes H W hpos hH
+
+/-- the index map OpenCV uses is the model's, along rows and along columns, for all tabulated sizes -/
+theorem resize_matches_code : ∀ e ∈ Gen.nearTable,
+    e.2.2.1 = (List.range e.2.1).map (nearIdx e.1 e.2.1) ∧ e.2.2.2 = (List.range e.2.1).map (nearIdx e.1 e.2.1) := by
+  decide
+
 /-! ### kernel interpolation (partial: `exp`, `np.linalg.inv`, float32 are observed, not modelled) -/
 
 /-- `interp_reproduces_partial`: over any field, if the kernel matrix `K i j = k(x_i, x_j)` is invertible
@@ -196,6 +254,10 @@ theorem poly_matches_code : ∀ d ∈ Gen.polyDegrees,
     Gen.polyTable d = (polyExps d).map some ∧ Gen.polySizeTable d = some (polySize d) := by decide
 
 /-! ### non-vacuity -/
+
+/-- coarse call, then native resolution: the original stripes are back -/
+example : cacheRun [[1, 2, 1, 2], [1, 2, 1, 2]] [(1, 2), (2, 4)] = [[1, 2, 1, 2], [1, 2, 1, 2]] ∧
+    cacheRun [[1, 2, 1, 2], [1, 2, 1, 2]] [(1, 2)] = [[1, 1]] := by decide
 
 open Darsia.Kern in
 /-- a sequence with unsorted supports, a duplicate row, a kernel change and a value-only update: the weights
